@@ -128,7 +128,7 @@ def contiguous_bounds(rng, vals):
 # --------------------------------------------------------------------------------------------
 # CF 1-D
 
-def cf1d(rng, *, ny=None, nx=None, bounds=None, as_coords=None, dim_names=None, min_len=2, bad_bounds=None):
+def cf1d(rng, *, ny=None, nx=None, bounds=None, as_coords=None, dim_names=None, min_len=2, bad_bounds=None, mixed_dtypes=None):
     ny = ny or rng.randint(min_len, 6)
     nx = nx or rng.randint(min_len, 6)
     if bounds is None:
@@ -140,6 +140,19 @@ def cf1d(rng, *, ny=None, nx=None, bounds=None, as_coords=None, dim_names=None, 
     ydim, xdim = dim_names
     lat = axis_values(rng, ny)
     lon = axis_values(rng, nx)
+    if mixed_dtypes in ('lon_int', 'lat_int'):
+        # one axis in whole degrees stored as integers (coordinate and bounds), the other fractional float64
+        start = rng.randint(-20, 20)
+        ints = [float(start + 2 * i) for i in range(nx if mixed_dtypes == 'lon_int' else ny)]
+        if mixed_dtypes == 'lon_int':
+            lon = ints
+        else:
+            lat = ints
+        bounds = True
+    elif mixed_dtypes == 'lon_f4':
+        # longitude single precision; latitude double precision with digits single precision cannot hold
+        lat = [v + 2.0 ** -26 for v in lat]
+        bounds = True
     latname, lonname = (ydim, xdim) if rng.random() < 0.6 else ('the_lat', 'the_lon')
     # which marker identifies the coordinates
     marker = rng.choice(['units', 'standard_name', 'axis'])
@@ -153,6 +166,10 @@ def cf1d(rng, *, ny=None, nx=None, bounds=None, as_coords=None, dim_names=None, 
     if bounds:
         lat_b = contiguous_bounds(rng, lat)
         lon_b = contiguous_bounds(rng, lon)
+        if mixed_dtypes == 'lon_int':
+            lon_b = [[v - 1.0, v + 1.0] for v in lon]
+        if mixed_dtypes == 'lat_int':
+            lat_b = [[v - 1.0, v + 1.0] for v in lat]
         lat_attrs = dict(lat_attrs, bounds='lat_bnds')
         lon_attrs = dict(lon_attrs, bounds='lon_bnds')
         variables['lat_bnds'] = ((ydim, 'bnds'), numpy.array(lat_b))
@@ -169,6 +186,13 @@ def cf1d(rng, *, ny=None, nx=None, bounds=None, as_coords=None, dim_names=None, 
             spec['bounds'] = None
             spec['bad_bounds'] = bad_bounds
     coordvars = {latname: ((ydim,), numpy.array(lat), lat_attrs), lonname: ((xdim,), numpy.array(lon), lon_attrs)}
+    if mixed_dtypes:
+        dt = {'lon_int': ('i4', None), 'lat_int': (None, 'i4'), 'lon_f4': ('f4', None)}[mixed_dtypes]
+        for (cname, bname), t in (((lonname, 'lon_bnds'), dt[0]), ((latname, 'lat_bnds'), dt[1])):
+            if t:
+                coordvars[cname] = (coordvars[cname][0], coordvars[cname][1].astype(t), coordvars[cname][2])
+                variables[bname] = (variables[bname][0], variables[bname][1].astype(t))
+        spec['mixed_dtypes'] = mixed_dtypes
     if as_coords:
         ds = xarray.Dataset(data_vars=variables, coords=coordvars)
     else:
@@ -178,7 +202,8 @@ def cf1d(rng, *, ny=None, nx=None, bounds=None, as_coords=None, dim_names=None, 
             spec['as_coords'] = True
         else:
             ds = xarray.Dataset(data_vars={**coordvars, **variables})
-    spec['label'] = f'cf1d {ny}x{nx} bounds={bool(bounds)}' + (f' refused-bounds={bad_bounds}' if bad_bounds else '')
+    spec['label'] = f'cf1d {ny}x{nx} bounds={bool(bounds)}' + (f' refused-bounds={bad_bounds}' if bad_bounds else '') + (
+        f' dtypes={mixed_dtypes}' if mixed_dtypes else '')
     spec['kinds'] = {'face': [ydim, xdim]}
     spec['kind_order'] = ['face']
     return DS('cf1d', ds, spec)
@@ -222,6 +247,10 @@ def hole_pattern(rng, ny, nx, kind=None):
         holes[:, 2] = True
         if ny > 2:
             holes[ny - 1, :] = False
+    elif kind == 'mostly_dry':
+        # only the last rows have cells (a wet patch at the end of a large, mostly dry domain)
+        holes[:, :] = True
+        holes[max(0, ny - 2):, :] = False
     if holes.all():
         holes[0, 0] = False
     return holes, kind
@@ -311,7 +340,7 @@ def cf2d(rng, *, ny=None, nx=None, bounds=None, holes=None, shoc_simple=False, a
 # --------------------------------------------------------------------------------------------
 # Arakawa C / SHOC standard
 
-def arakawa(rng, *, nj=None, ni=None, holes=None, shoc=True, invalid=None):
+def arakawa(rng, *, nj=None, ni=None, holes=None, shoc=True, invalid=None, transposed_coords=()):
     nj = nj or rng.randint(1, 5)
     ni = ni or rng.randint(1, 5)
     ax, ay = rng.choice([(8, 0), (8, 2), (6, -2)])
@@ -356,10 +385,13 @@ def arakawa(rng, *, nj=None, ni=None, holes=None, shoc=True, invalid=None):
     for kind in ['face', 'left', 'back', 'node']:
         for (nm, arr, sn) in [(names[kind][0], arrays[kind][0], 'latitude'), (names[kind][1], arrays[kind][1], 'longitude')]:
             coords[nm] = (dims[kind], arr, {'long_name': f'{sn} at {kind}', 'units': 'degrees_north' if sn == 'latitude' else 'degrees_east'})
+            if nm in transposed_coords:
+                # the same coordinate stored with its dimensions the other way round (i, j): legal, xarray aligns by name
+                coords[nm] = (dims[kind][::-1], arr.T.copy(), coords[nm][2])
     ds = xarray.Dataset(coords=coords, attrs={'title': 'generated SHOC standard'})
     spec = {'nj': nj, 'ni': ni, 'hole': hole, 'hole_kind': hole_kind, 'xg': xg, 'yg': yg, 'xc': xc, 'yc': yc,
             'node_missing': node_missing,
-            'label': f'shoc_standard {nj}x{ni} holes={hole_kind}',
+            'label': f'shoc_standard {nj}x{ni} holes={hole_kind}' + (f' stored-ij={sorted(transposed_coords)}' if transposed_coords else ''),
             'kinds': {k: list(dims[k]) for k in ['face', 'left', 'back', 'node']},
             'kind_order': ['face', 'left', 'back', 'node']}
     return DS('shoc_standard', ds, spec)
@@ -693,3 +725,57 @@ def add_depth(rng, ds, *, dim='k', n=None, name=None, up=None, deep_first=None, 
         coords.append({'name': nm2, 'attr': a2['positive'], 'vals': v2, 'bounds': None})
     spec = {'dim': dim, 'n': n, 'up': up, 'deep_first': deep_first, 'phys': phys, 'coords': coords}
     return ds, spec
+
+
+# --------------------------------------------------------------------------------------------
+# representation variants of a dataset: the same content held differently (none of them changes what the dataset says)
+
+def prepend_var(ds, name, da):
+    """the dataset with `name` as its FIRST data variable"""
+    new = xarray.Dataset({name: da}, attrs=ds.attrs)
+    new = new.assign({k: v.variable for k, v in ds.data_vars.items()})
+    new = new.assign_coords({k: v.variable for k, v in ds.coords.items()})
+    new.encoding = dict(ds.encoding)
+    return new
+
+
+def leading_reversed_var(rng, ds, kinds, kind='face', name='aaa_first'):
+    """first data variable spans the grid of `kind` with its surface dimensions in REVERSE order (legal: e.g. (lon, lat))"""
+    dims = list(kinds[kind])[::-1]
+    shape = [ds.sizes[x] for x in dims]
+    extra = rng.random() < 0.5
+    if extra:
+        dims, shape = ['time'] + dims, [ds.sizes.get('time', 2)] + shape
+    vals = numpy.arange(int(numpy.prod(shape)), dtype='f8').reshape(shape) + 0.5
+    return prepend_var(ds, name, xarray.DataArray(vals, dims=dims, attrs={'long_name': 'stored x-major'}))
+
+
+def fortran_layout(ds, names=None):
+    """every (named) variable of two or more dimensions held column-major in memory (as after .T, loadmat, transpose())"""
+    out = ds.copy()
+    for n in (names if names is not None else list(ds.variables)):
+        v = ds[n]
+        if v.ndim >= 2:
+            arr = numpy.asfortranarray(v.values)
+            new = xarray.Variable(v.dims, arr, v.attrs, v.encoding)
+            out = out.assign_coords({n: new}) if n in ds.coords else out.assign({n: new})
+    return out
+
+
+def shift_coordinates(ds, dlon=0.0, dlat=0.0, max_lat=85.0):
+    """the same dataset moved east / north: every longitude / latitude variable and its bounds"""
+    def which(units, std, axis):
+        ns = [n for n, v in ds.variables.items() if v.dtype.kind == 'f' and (
+            v.attrs.get('units') == units or v.attrs.get('standard_name') == std or v.attrs.get('axis') == axis)]
+        return ns + [ds[n].attrs['bounds'] for n in ns if ds[n].attrs.get('bounds') in ds.variables]
+    out = ds.copy(deep=True)
+    for names, delta in ((which('degrees_east', 'longitude', 'X'), dlon), (which('degrees_north', 'latitude', 'Y'), dlat)):
+        if not delta or not names:
+            continue
+        if delta == dlat and max(float(numpy.nanmax(ds[n].values)) for n in names) + delta > max_lat:
+            continue
+        for n in names:
+            v = ds[n]
+            new = xarray.Variable(v.dims, v.values + delta, v.attrs, v.encoding)
+            out = out.assign_coords({n: new}) if n in ds.coords else out.assign({n: new})
+    return out
